@@ -625,8 +625,12 @@ impl Gen {
                     tags.push(vec!["e".into(), hex(&t.id)]);
                 }
                 3 => {
-                    // an id nobody has seen
-                    let id = self.rng.bytes32();
+                    // an id nobody has seen (now and then an extreme one)
+                    let id = match self.rng.below(12) {
+                        0 => [0u8; 32],
+                        1 => [0xffu8; 32],
+                        _ => self.rng.bytes32(),
+                    };
                     tags.push(vec!["e".into(), hex(&id)]);
                 }
                 4 => {
